@@ -194,7 +194,7 @@ Proof.
   - apply Mm_exp_token. - apply Mm_exp_ident. - apply Mm_take_until. - apply Mm_alt; auto.
   - apply Mm_sep_tokens. - apply Mm_sep_list; auto. - apply Mm_until; auto.
   - apply Mm_until_strict; auto. - apply Mm_until_no_match; auto. - apply Mm_binops; auto.
-  - apply Mm_memo; auto. - apply Mm_memo_ok_only; auto.
+  - apply Mm_memo; auto.
   - apply Mm_if_block; auto. - apply Mm_stmt_shape; auto.
 Qed.
 
